@@ -715,6 +715,89 @@ func init() {
 				},
 			},
 			{
+				// what a call allocates must be proportional to ITS input, not to what earlier calls left behind: a run of
+				// long inputs that are refused near their end (a pooled buffer, a cache or a long-lived object could keep
+				// their partial results), then a few octets. The whole run is repeated three times and the small call is
+				// measured exactly each time (min of three): state left by refused calls repeats, accounting noise does not.
+				Name: "after-refusals", N: q(1200, 60000),
+				Run: func(c *fw.Case) {
+					st := c03st(c.W)
+					r := c.R
+					all := append(append([]target(nil), st.aux...), st.disp...)
+					tg := all[int(c.Idx)%len(all)]
+					if tg.allocExempt || st.allocViol[tg.name] >= 2 {
+						return
+					}
+					letters := make([]rune, r.Range(900, 1400))
+					for i := range letters {
+						letters[i] = rune('a' + r.Intn(26))
+					}
+					t := string(letters)
+					form := r.Intn(4)
+					mk := func(text string, damaged bool) []byte {
+						switch form {
+						case 0:
+							b := refSeptets(text)
+							if damaged {
+								b = append(b, 0x1b, 0x1b)
+							}
+							return b
+						case 1:
+							sp := refSeptets(text)
+							if damaged {
+								sp = append(sp, 0x1b, 0x1b)
+							}
+							return ref.Pack(sp)
+						case 2:
+							b := refUTF16(text)
+							if damaged {
+								b = append(b, 0xd8, 0x00, 0x00)
+							}
+							return b
+						}
+						b := []byte(text)
+						if damaged {
+							b = append(b, 0x81, 0xff, 0x1b)
+						}
+						return b
+					}
+					long, small := mk(t, true), mk(t[:r.Range(1, 6)], false)
+					K := 64
+					exact := ^uint64(0)
+					var ms runtime.MemStats
+					for rep := 0; rep < 3; rep++ {
+						for k := 0; k < K; k++ {
+							in := append([]byte(nil), long...)
+							arm(c, len(in))
+							pan, val, stack := fw.Try(func() { _ = tg.call(in) })
+							disarm(c)
+							if pan {
+								c.Failf(fw.PanicSig(val, stack)+"/"+tg.name, "target %s input(%d)=%s\npanic: %v\n%s", tg.name, len(long), hx(long), val, stack)
+								return
+							}
+						}
+						in := append([]byte(nil), small...)
+						arm(c, len(in))
+						runtime.ReadMemStats(&ms)
+						t0 := ms.TotalAlloc
+						fw.Try(func() { _ = tg.call(in) })
+						runtime.ReadMemStats(&ms)
+						disarm(c)
+						if d := ms.TotalAlloc - t0; d < exact {
+							exact = d
+						}
+					}
+					c.Evals(uint64(3 * (K + 1)))
+					if tight := tg.constOctets() + tg.perOctet()*uint64(len(small)); exact > tight {
+						st.allocViol[tg.name]++
+						c.Failf("alloc-after-refused-calls/"+tg.name, "target %s allocated %d octets for a %d-octet input (exact, minimum of three runs; bound %d + %d*len) when the %d calls before it were given %d-octet inputs that go wrong at their end\nsmall input=%s\nlong input=%s",
+							tg.name, exact, len(small), tg.constOctets(), tg.perOctet(), K, len(long), hx(small), hx(long))
+						return
+					}
+					c.Cover(fmt.Sprintf("after-refusals/%s/%d", tg.name, form))
+				},
+			},
+			{
 				Name: "textparsers", N: q(300000, 10000000),
 				Run: func(c *fw.Case) {
 					s := c03st(c.W)
